@@ -85,6 +85,8 @@ Theorem known_csi_query_witness :
 Proof. repeat split; vm_compute; reflexivity. Qed.
 Print Assumptions known_csi_query_witness.
 
+Definition states_tail : list N := [0;0;128;0; 0;0;128;0; 0;0;128;0; 0;0;128;0; 0;0;0;0;0;0;0;0].
+
 (* ---- (3) rANS 4x8 order-0 frequency table -------------------------------------------------- *)
 
 Theorem c15_rans_run_total_partial :
@@ -93,8 +95,8 @@ Proof. exact read_run_total. Qed.
 Print Assumptions c15_rans_run_total_partial.
 
 Theorem known_rans_freq_witness :
-  rfreq ([254; 5; 255; 1; 1; 0] ++ repeat 0 16) = Panic S_SYM_ADD /\
-  rfreq ([97; 192; 255; 255; 99; 1; 0] ++ repeat 0 16) = Panic S_CUM_ADD.
+  rfreq ([254; 5; 255; 1; 1; 0] ++ states_tail) = Panic S_SYM_ADD /\
+  rfreq ([97; 192; 255; 255; 99; 1; 0] ++ states_tail) = Panic S_CUM_ADD.
 Proof. split; vm_compute; reflexivity. Qed.
 Print Assumptions known_rans_freq_witness.
 
@@ -110,5 +112,5 @@ Example c15_nonvacuous_seek : loaded_len (skipn 1 [5; 7]) = 7 /\ seek_then [5; 7
 Proof. split; vm_compute; reflexivity. Qed.
 Example c15_nonvacuous_query : known_query 14 5 4681 = false /\ query 14 5 4681 1 16384 = Ok true.
 Proof. split; vm_compute; reflexivity. Qed.
-Example c15_nonvacuous_rfreq : rfreq ([97; 5; 98; 2; 2; 1; 1; 114; 2; 0] ++ repeat 0 16) = Ok tt.
+Example c15_nonvacuous_rfreq : rfreq ([97; 5; 98; 2; 2; 1; 1; 114; 2; 0] ++ states_tail) = Ok tt.
 Proof. vm_compute. reflexivity. Qed.
